@@ -14,6 +14,25 @@ def dispatch (line : String) : String :=
     match eng with
     | "ping" => "pong"
     | "ranges" => RangeMap.handle args
+    | "cfi" => Cfi.handle "cfi" args
+    | "win" => Win.handle "win" args
+    | "sym" => SymParse.handle "sym" args
+    | "symb" => Symbolize.handle "symb" args
+    | "once" => Once.handle "once" args
+    | "paths" => Paths.handle "paths" args
+    | "regs" => Regs.handle "regs" args
+    | "bitflip" => BitFlip.handle "bitflip" args
+    | "walk" => Walk.handle "walk" args
+    | "chain" => Walk.handle "chain" args
+    | "read" => Bytes.handle "read" args
+    | "roundtrip" => Bytes.handle "roundtrip" args
+    | "index" => Index.handle "index" args
+    | "json" => Json.handle "json" args
+    | "jsonck" => Json.handle "jsonck" args
+    | "cache" => CacheFs.handle "cache" args
+    | "cli" => Cli.handle "cli" args
+    | "det" => Det.handle "det" args
+    | "process" => Process.handle "process" args
     | _ => "bad-engine"
 
 partial def loop (hin : IO.FS.Stream) (hout : IO.FS.Stream) : IO Unit := do
